@@ -255,6 +255,38 @@ def d5(ctx, prog):
                                 f'run (TTestAnalysis.run calls stop() in its finally block) silently truncates the next accumulation', run.where())
     else:
         ctx.ok('C09-D5', key, f'`{flag}` is cleared before the batch loop on each of {n} paths', run.where())
+    # the stored-failure typestate: the attribute join() re-raises must be cleared by every run() before anything can fail, else a
+    # failure of an earlier run is re-raised by the join() of a later, sound run (the analysis could never be used again)
+    join = prog.resolve_method(acc, 'join')
+    exc_attrs = set()
+    if join is not None:
+        for r_ in ast.walk(join.node):
+            if isinstance(r_, ast.Raise) and r_.exc is not None and self_attr(r_.exc):
+                exc_attrs.add(self_attr(r_.exc))
+    if len(exc_attrs) != 1:
+        ctx.undecided('C09-D5', f'{acc.key}::stored failure', 'the attribute re-raised by join() was not identified', acc.mod.relpath)
+    else:
+        ea = exc_attrs.pop()
+
+        def keep2(ev, fl):
+            return (ev[0] == 'store' and ev[1] == ea) or ev[0] == 'call' or ev[0] == 'raise'
+        fl2 = flow.Flow(prog, acc, keep=keep2, inline=lambda c, call, caller: False)
+        paths2 = fl2.run(run)
+        bad2 = n2 = 0
+        for p in paths2:
+            first = next((e for e in p.events if e[0] in ('store', 'call')), None)
+            if first is None:
+                continue
+            n2 += 1
+            node = fl2.node_of(first) if first[0] == 'store' else None
+            if not (first[0] == 'store' and isinstance(node, ast.Assign) and isinstance(node.value, ast.Constant) and node.value.value is None):
+                bad2 += 1
+        key2 = f'{run.key}::stored failure cleared'
+        if n2 == 0:
+            ctx.undecided('C09-D5', key2, 'no path through run() found', run.where())
+        else:
+            ctx.check(bad2 == 0, 'C09-D5', key2, f'on {bad2} of {n2} paths run() does something before clearing `{ea}`: a failure stored by an earlier run is re-raised by join() after a later, '
+                      f'sound run', f'`{ea}` is reset to None before anything else on each of {n2} paths through run()', run.where())
     # the analysis does call stop() after every run: the clearing above is what makes repeated runs accumulate everything
     arun = prog.resolve_method(prog.need_class(TT, 'TTestAnalysis'), 'run')
     calls_stop = any(isinstance(c, ast.Call) and isinstance(c.func, ast.Attribute) and c.func.attr == 'stop' for c in ast.walk(arun.node))
